@@ -525,7 +525,7 @@ func checkGroup(g *l2group, a galigned, nGroups int, src string, vars []VarDef, 
 		}
 	}
 	top := g.top
-	baseText := src[g.b:g.e]
+	baseText := strings.TrimRight(src[g.b:g.e], " \t\r\n") // blanks swallowed by the last token stay outside the annotation
 
 	if top.kind == "cvar" {
 		return checkComputedGroup(g, a, src, vars, text, mk, info)
@@ -564,7 +564,7 @@ func checkGroup(g *l2group, a galigned, nGroups int, src string, vars []VarDef, 
 		sub := g.subs[k]
 		vsp := g.vmOf[sub]
 		r2, v, ok := parseTrailingInt(rest)
-		want := "," + src[vsp.B:vsp.E] + "="
+		want := "," + strings.TrimRight(src[vsp.B:vsp.E], " \t\r\n") + "="
 		if !ok || !strings.HasSuffix(r2, want) {
 			return mk("annotation", "annotation:subdetail", where+" annotation "+a.ann, fmt.Sprintf("sub-roll %d of %d shown as %q<value>", k+1, len(g.subs), want))
 		}
